@@ -328,3 +328,22 @@ def pred_true_set(ctx, clo):
             return None
         trues |= pins
     return trues
+
+
+def boolish(ctx, ty):
+    """a two-valued flag type: bool, or a crate-local enum with exactly two field-less variants (PX represents both as 0/1)"""
+    return ty == "bool" or ty in P.two_valued_enums(ctx.facts)
+
+
+def option_payload_type(ctx, ty):
+    """T for `Option<T>` and for crate-local enums isomorphic to Option (which PX represents as Option values); else None"""
+    if ty.startswith("std::option::Option<") and ty.endswith(">"):
+        return ty[len("std::option::Option<"):-1]
+    base = ty.split("<")[0]
+    ol = P.option_like_enums(ctx.facts)
+    if base in ol:
+        a = ctx.facts.adts[base]
+        for v in a["variants"]:
+            if v["fields"]:
+                return v["fields"][0]["ty"]
+    return None
